@@ -127,6 +127,12 @@ class Lin:
                 elif k[1] == "Eq" and c[1] == 1:
                     out.append(lin_add(a, b, -1))
                     out.append(lin_add(b, a, -1))
+                elif k[1] == "Eq" and c[1] == 0:
+                    # x != 0 for an unsigned x  ->  1 - x <= 0
+                    if not a[0] and a[1] == 0:
+                        out.append(lin_add(const(1), b, -1))
+                    elif not b[0] and b[1] == 0:
+                        out.append(lin_add(const(1), a, -1))
             elif k[0] in ("call", "field", "init", "arg", "len", "bin", "cast", "index") :
                 la = self.of_term(k)
                 if c[0] == "eq" and isinstance(c[1], int):
